@@ -302,8 +302,19 @@ def execLoad (cfg : Cfg) (pol : Policy) (i : Nat) (sub : Sub) (w : World) (a : O
   match createdNow x.2.1 with
   | none => single a (.load p) x
   | some o =>
-    let y := sub x.1 o.oid (scriptKey o.name)
+    let y := sub x.1 o.oid p.name
     (y.1, seg x.1 a (.load p) none x.2.1 none true :: y.2 ++ [seg y.1 a (.load p) none [] (some x.2.2.2) false])
+
+/-- second half of clone_object from world `w` (after the blueprint's create() script): the clone is made by the
+    same object `A'` with the uids it has now, then the clone's create() script runs -/
+def cloneTail (cfg : Cfg) (pol : Policy) (i : Nat) (sub : Sub) (w : World) (a : Oid) (A' : Obj) (newOid : Oid)
+    (p : Path) (first : Bool) : World × List StepRec :=
+  let op := Op.clone newOid p
+  let c := cloneSelf cfg pol i w A' newOid p
+  if c.2.2 = false then (c.1, [seg c.1 a op none [c.2.1] (some (.err .policy)) first])
+  else
+    let y := sub c.1 newOid (p.name ++ "#")
+    (y.1, seg c.1 a op none [c.2.1] none first :: y.2 ++ [seg y.1 a op none [] (some (.oid newOid)) false])
 
 def execClone (cfg : Cfg) (pol : Policy) (i : Nat) (sub : Sub) (w : World) (a : Oid) (A : Obj) (newOid : Oid)
     (p : Path) : World × List StepRec :=
@@ -315,22 +326,15 @@ def execClone (cfg : Cfg) (pol : Policy) (i : Nat) (sub : Sub) (w : World) (a : 
     if b.2.2 = false then
       (b.1, [seg b.1 a op none b.2.1 (some (if b.2.1.isEmpty then .int 0 else .err .policy)) true])
     else
-      -- blueprint created just now: its segment and its create() script
-      let pre : World × List StepRec :=
-        match b.2.1 with
-        | [] => (b.1, [])
-        | _ :: _ =>
-          let y := sub b.1 p.oid (scriptKey p.name)
-          (y.1, seg b.1 a op none b.2.1 none true :: y.2)
-      -- current_object is the same object; its uids are read when give_uid_to_object runs
-      let A' := (getO pre.1.objs a).getD A
-      let c := cloneSelf cfg pol i pre.1 A' newOid p
-      let first := pre.2.isEmpty
-      if c.2.2 = false then
-        (c.1, pre.2 ++ [seg c.1 a op none [c.2.1] (some (.err .policy)) first])
-      else
-        let y := sub c.1 newOid ((p.name ++ "#"))
-        (y.1, pre.2 ++ seg c.1 a op none [c.2.1] none first :: y.2 ++ [seg y.1 a op none [] (some (.oid newOid)) false])
+      match b.2.1 with
+      | [] => cloneTail cfg pol i sub b.1 a A newOid p true
+      | _ :: _ =>
+        -- blueprint created just now: its segment and its create() script
+        let y := sub b.1 p.oid p.name
+        -- current_object is the same object; its uids are read when give_uid_to_object runs
+        let A' := (getO y.1.objs a).getD A
+        let t := cloneTail cfg pol i sub y.1 a A' newOid p false
+        (t.1, seg b.1 a op none b.2.1 none true :: y.2 ++ t.2)
 
 def execReload (sub : Sub) (w : World) (a : Oid) (t : Oid) : World × List StepRec :=
   let x := doReload w t
@@ -359,9 +363,12 @@ def execWith (cfg : Cfg) (pol : Policy) (i : Nat) (sub : Sub) (nested : Bool) (w
     | .dest t => if nested then (w, [seg w a op none [] (some .nobj) true]) else single a op (doDest w t)
     | .reload t => if nested then (w, [seg w a op none [] (some .nobj) true]) else execReload sub w a t
 
-def runScript (f : World → Oid → Op → World × List StepRec) (w : World) (o : Oid) (ops : List Op) :
-    World × List StepRec :=
-  ops.foldl (fun acc op => let r := f acc.1 o op; (r.1, acc.2 ++ r.2)) (w, [])
+def runScript (f : World → Oid → Op → World × List StepRec) (w : World) (o : Oid) : List Op → World × List StepRec
+  | [] => (w, [])
+  | op :: ops =>
+    let r := f w o op
+    let r2 := runScript f r.1 o ops
+    (r2.1, r.2 ++ r2.2)
 
 /-- ops with nested create() scripts, recursion bounded by fuel (fuel 0: scripts are skipped) -/
 def exec (cfg : Cfg) (pol : Policy) (i : Nat) : Nat → Bool → World → Oid → Op → World × List StepRec
